@@ -39,5 +39,5 @@ def configs(tier):
 def run(chk, tier, jobs, deadline):
     chk.assumptions += ASSUME
     msgfamily.run_configs(chk, "h_msg", configs(tier), PREFIXES, jobs,
-                          deadline or (420 if tier == "quick" else 2700),
+                          deadline or (420 if tier == "quick" else 1500),
                           counter_names={3: "counter_vector_reads", 4: "idle_pair_comparisons"})
